@@ -145,10 +145,13 @@ var c02seedText = []string{
 	"(def m3 {:a 1})",                 // map
 	`(def s4 #{"a"})`,                 // set
 	"(def v5 (subvec [1 2 3 4] 0 2))", // window over a larger array
-	"(def pk _PACKAGES_)",             // registry map (mutated by registration)
+	"(def pk _PACKAGES_)",             // registry map (mutated by registration)	// longer vectors that came out of a copying builtin (Go's allocator rounds a copy of 17 or 33
+	// elements up to a larger size class: spare capacity that literals of small length never have)
+	"(def v7 (assoc [1 2 3 4 5 6 7 8 9 10 11 12 13 14 15 16 17] 0 9))",
+	"(def v8 (update (vec (range 0 33)) 0 (fn [o] 9)))",
 }
-var c02seedNames = []string{"v0", "l1", "l2", "m3", "s4", "v5", "pk"}
-var c02seedKinds = []int{kV, kL, kL, kM, kS, kV, kP}
+var c02seedNames = []string{"v0", "l1", "l2", "m3", "s4", "v5", "pk", "v7", "v8"}
+var c02seedKinds = []int{kV, kL, kL, kM, kS, kV, kP, kV, kV}
 
 const c02prelude = `(do
  (def at1 (atom nil))
@@ -375,7 +378,7 @@ func init() {
 		}
 		fam := &vf.Family{
 			Name:     "histories",
-			Bounds:   fmt.Sprintf("all histories of exactly 2 (quick) / 3 (thorough) type-correct operations over %d operation kinds applied to any earlier value (7 seeds incl. literal vector with spare capacity, reader array, subvec window, _PACKAGES_); a case = one prefix, expanded by every possible last operation", len(ops)),
+			Bounds:   fmt.Sprintf("all histories of exactly 2 (quick) / 3 (thorough) type-correct operations over %d operation kinds applied to any earlier value (9 seeds incl. literal vector with spare capacity, reader array, subvec window, _PACKAGES_, vectors of 17 and 33 elements returned by assoc / update); a case = one prefix, expanded by every possible last operation", len(ops)),
 			Setup:    setup,
 			N:        func(t string) int64 { tier = t; return int64(len(pfx())) },
 			Describe: func(i int64) string { return descr(pfx()[i]) + " ; <every next operation>" },
